@@ -8,6 +8,7 @@
 From Coq Require Import List Bool Arith NArith Lia String.
 From PMS Require Import Base.PyStr Spec.AbstractFs Model.FsSave Model.FsCode Gen.SaveTrace Gen.DamageClasses.
 Import ListNotations.
+Local Open Scope nat_scope.
 
 (* ------------------------------------------------------------------ A. naturality *)
 Section Nat.
@@ -333,3 +334,266 @@ Proof.
 Qed.
 
 End NatScn.
+
+(* ------------------------------------------------------------------ B. reductions *)
+Section Collapse.
+Context {St : Type}.
+Implicit Types (st : mstate St).
+
+Lemma upd_nth_idem : forall {A} (f : A -> A) l i,
+  (forall x, f (f x) = f x) -> upd_nth (upd_nth l i f) i f = upd_nth l i f.
+Proof.
+  intros A f l. induction l as [|x r IH]; intros i H; destruct i; simpl; auto.
+  - now rewrite H.
+  - now rewrite IH.
+Qed.
+
+Lemma set_vol_idem : forall (fs : fsys St) i c, fs_set_vol (fs_set_vol fs i c) i c = fs_set_vol fs i c.
+Proof.
+  intros. unfold fs_set_vol, fs_upd_ino. simpl. f_equal. apply upd_nth_idem. reflexivity.
+Qed.
+
+(* a chunk write after a chunk write changes nothing; the last write forgets earlier chunk writes *)
+Lemma chunk_idem : forall new st st1,
+  do_act new (AWrite false) st = Some st1 -> do_act new (AWrite false) st1 = Some st1.
+Proof.
+  intros new st st1 H. simpl in *. destruct (m_h st) as [h|]; [|discriminate].
+  injection H as <-. simpl. rewrite set_vol_idem. reflexivity.
+Qed.
+
+Lemma chunk_last : forall new st st1,
+  do_act new (AWrite false) st = Some st1 -> do_act new (AWrite true) st1 = do_act new (AWrite true) st.
+Proof.
+  intros new st st1 H. simpl in *. destruct (m_h st) as [h|]; [|discriminate].
+  injection H as <-. simpl. rewrite set_vol_idem. reflexivity.
+Qed.
+
+Definition ev_result (k : evkind) st : mstate St * status :=
+  match k with EvCrash => (st, Crashed) | EvFault => (st, Raised) end.
+
+Definition fire (evj : option (evkind * nat)) (j len : nat) : option evkind :=
+  match evj with
+  | Some (k, e) => if (j <=? e) && (e <? j + len) then Some k else None
+  | None => None
+  end.
+
+Definition last_write new st : mstate St * status :=
+  match do_act new (AWrite true) st with Some s => (s, Done) | None => (st, Raised) end.
+
+(* induction on the number of writes: once one chunk has been written, all intermediate states are equal *)
+Lemma run_chunks : forall new evj n j st,
+  do_act new (AWrite false) st = Some st ->
+  run_acts new evj j (repeat (AWrite false) n ++ [AWrite true]) st =
+  match fire evj j (S n) with Some k => ev_result k st | None => last_write new st end.
+Proof.
+  intros new evj n. induction n as [|n IH]; intros j st Hc.
+  - simpl repeat. simpl app. unfold run_acts, fire, last_write.
+    destruct evj as [[k e]|]; [|destruct (do_act new (AWrite true) st); reflexivity].
+    destruct (Nat.eqb_spec e j) as [->|Hne].
+    + replace ((j <=? j) && (j <? j + 1)) with true
+        by (symmetry; apply andb_true_intro; split; [apply Nat.leb_le | apply Nat.ltb_lt]; lia).
+      destruct k; reflexivity.
+    + replace ((j <=? e) && (e <? j + 1)) with false.
+      * destruct (do_act new (AWrite true) st); reflexivity.
+      * symmetry. apply andb_false_iff.
+        destruct (Nat.leb_spec j e); [right; apply Nat.ltb_ge; lia | left; reflexivity].
+  - change (repeat (AWrite false) (S n) ++ [AWrite true])
+      with (AWrite false :: (repeat (AWrite false) n ++ [AWrite true])).
+    cbn [run_acts]. rewrite Hc.
+    destruct evj as [[k e]|].
+    + destruct (Nat.eqb_spec e j) as [->|Hne].
+      * unfold fire.
+        replace ((j <=? j) && (j <? j + S (S n))) with true
+          by (symmetry; apply andb_true_intro; split; [apply Nat.leb_le | apply Nat.ltb_lt]; lia).
+        destruct k; reflexivity.
+      * rewrite (IH (S j) st Hc). unfold fire.
+        replace ((S j <=? e) && (e <? S j + S n)) with ((j <=? e) && (e <? j + S (S n))); [reflexivity|].
+        apply Bool.eq_iff_eq_true. rewrite !andb_true_iff, !Nat.leb_le, !Nat.ltb_lt. lia.
+    + rewrite (IH (S j) st Hc). reflexivity.
+Qed.
+
+Definition clipj (w e : nat) : nat := if e =? 0 then 0 else if e <? w then 1 else 2.
+Definition clipj_ev (w : nat) (evj : option (evkind * nat)) : option (evkind * nat) :=
+  match evj with Some (k, e) => Some (k, clipj w e) | None => None end.
+
+Local Arguments do_act : simpl never.
+
+Lemma write_fail : forall new st b b',
+  do_act new (AWrite b) st = None -> do_act new (AWrite b') st = None.
+Proof. intros new st b b'. unfold do_act. destruct (m_h st); [discriminate | reflexivity]. Qed.
+
+Lemma dump_collapse : forall w new evj st, 1 <= w ->
+  run_acts new evj 0 (dump_acts w) st = run_acts new (clipj_ev w evj) 0 (dump_acts 2) st.
+Proof.
+  intros w new evj st Hw. unfold dump_acts.
+  change (repeat (AWrite false) (pred 2) ++ [AWrite true]) with ([AWrite false; AWrite true]).
+  destruct w as [|[|n]]; [lia| |].
+  - (* one write *)
+    change (repeat (AWrite false) (pred 1) ++ [AWrite true]) with ([AWrite true]).
+    destruct evj as [[k e]|]; cbn [clipj_ev].
+    + unfold clipj. destruct (Nat.eqb_spec e 0) as [->|Hne].
+      * cbn [run_acts Nat.eqb]. destruct k; reflexivity.
+      * destruct (Nat.ltb_spec e 1) as [Hlt|_]; [lia|].
+        cbn [run_acts]. rewrite (proj2 (Nat.eqb_neq e 0) Hne). cbn [Nat.eqb].
+        destruct (do_act new (AWrite false) st) as [st1|] eqn:Hc.
+        -- rewrite (chunk_last new st st1 Hc). destruct (do_act new (AWrite true) st) eqn:Ht;
+           [reflexivity | rewrite (write_fail new st true false Ht) in Hc; discriminate].
+        -- rewrite (write_fail new st false true Hc). reflexivity.
+    + cbn [run_acts].
+      destruct (do_act new (AWrite false) st) as [st1|] eqn:Hc.
+      * rewrite (chunk_last new st st1 Hc). destruct (do_act new (AWrite true) st) eqn:Ht;
+           [reflexivity | rewrite (write_fail new st true false Ht) in Hc; discriminate].
+      * rewrite (write_fail new st false true Hc). reflexivity.
+  - (* at least two writes *)
+    change (repeat (AWrite false) (pred (S (S n))) ++ [AWrite true])
+      with (AWrite false :: (repeat (AWrite false) n ++ [AWrite true])).
+    destruct evj as [[k e]|]; cbn [clipj_ev].
+    + unfold clipj. destruct (Nat.eqb_spec e 0) as [->|Hne].
+      * cbn [run_acts Nat.eqb]. destruct k; reflexivity.
+      * cbn [run_acts]. rewrite (proj2 (Nat.eqb_neq e 0) Hne).
+        destruct (do_act new (AWrite false) st) as [st1|] eqn:Hc.
+        -- pose proof (chunk_idem new st st1 Hc) as Hi.
+           rewrite (run_chunks new (Some (k, e)) n 1 st1 Hi). unfold fire.
+           replace (1 <=? e) with true by (symmetry; apply Nat.leb_le; lia).
+           change (1 + S n) with (S (S n)). cbn [andb].
+           destruct (Nat.ltb_spec e (S (S n))).
+           ++ cbn [Nat.eqb]. destruct k; reflexivity.
+           ++ cbn [Nat.eqb]. unfold last_write. destruct (do_act new (AWrite true) st1); reflexivity.
+        -- destruct (e <? S (S n)); reflexivity.
+    + cbn [run_acts].
+      destruct (do_act new (AWrite false) st) as [st1|] eqn:Hc; [|reflexivity].
+      pose proof (chunk_idem new st st1 Hc) as Hi.
+      rewrite (run_chunks new None n 1 st1 Hi). unfold fire, last_write.
+      destruct (do_act new (AWrite true) st1); reflexivity.
+Qed.
+
+Definition clip (w : nat) (prog : list sinstr) (ev : option event) : option event :=
+  match ev with
+  | Some (mkEv k i j) =>
+      match nth_error prog i with
+      | Some ins => match i_op ins with IDump => Some (mkEv k i (clipj w j)) | _ => ev end
+      | None => ev
+      end
+  | None => None
+  end.
+
+Lemma clip_next : forall w ins rest ev, ev_next (clip w (ins :: rest) ev) = clip w rest (ev_next ev).
+Proof.
+  intros w ins rest [[k [|i] j]|]; simpl; auto.
+  - destruct (i_op ins); reflexivity.
+  - destruct (nth_error rest i) as [J|]; [destruct (i_op J)|]; reflexivity.
+Qed.
+
+Lemma clip_here : forall w ins rest ev,
+  ev_here (clip w (ins :: rest) ev) =
+  match i_op ins with IDump => clipj_ev w (ev_here ev) | _ => ev_here ev end.
+Proof.
+  intros w ins rest [[k [|i] j]|]; simpl.
+  - destruct (i_op ins); reflexivity.
+  - destruct (nth_error rest i) as [J|]; [destruct (i_op J)|]; destruct (i_op ins); reflexivity.
+  - destruct (i_op ins); reflexivity.
+Qed.
+
+(* events that cannot fire *)
+Lemma run_acts_nofire : forall new k e acts j st,
+  j + List.length acts <= e -> run_acts new (Some (k, e)) j acts st = run_acts new None j acts st.
+Proof.
+  intros new k e acts. induction acts as [|a r IH]; intros j st H; [reflexivity|].
+  cbn [run_acts]. simpl List.length in H.
+  replace (e =? j) with false by (symmetry; apply Nat.eqb_neq; lia).
+  destruct (do_act new a st); [apply IH; lia | reflexivity].
+Qed.
+
+Lemma acts_len2 : forall st op, List.length (acts_of 2 st op) <= 2.
+Proof. intros st op. destruct op; unfold acts_of; try destruct (m_exists st); simpl; lia. Qed.
+
+Local Arguments run_acts : simpl never.
+Local Arguments acts_of : simpl never.
+
+Lemma exec_collapse : forall w new prog ev st, 1 <= w ->
+  exec w new ev prog st = exec 2 new (clip w prog ev) prog st.
+Proof.
+  intros w new prog. induction prog as [|ins rest IH]; intros ev st Hw; [reflexivity|].
+  cbn [exec]. rewrite clip_next, clip_here.
+  destruct (i_guard ins && negb (m_exists st)); [now apply IH|].
+  destruct (i_op ins) eqn:Eop;
+    try (match goal with |- context [acts_of w st ?op] => change (acts_of w st op) with (acts_of 2 st op) end;
+         match goal with |- context [run_acts ?a ?b ?c ?d ?e] =>
+           destruct (run_acts a b c d e) as [st' [| |]] end; [now apply IH | reflexivity | reflexivity]).
+  - destruct (m_need_save st); [now apply IH | reflexivity].
+  - now apply IH.
+  - change (acts_of w st IDump) with (dump_acts w). change (acts_of 2 st IDump) with (dump_acts 2).
+    rewrite (dump_collapse w new (ev_here ev) st Hw).
+    destruct (run_acts new (clipj_ev w (ev_here ev)) 0 (dump_acts 2) st) as [st' [| |]];
+      [now apply IH | reflexivity | reflexivity].
+Qed.
+
+Lemma exec_nofire_j : forall new k j prog i st, 2 <= j ->
+  exec 2 new (Some (mkEv k i j)) prog st = exec 2 new None prog st.
+Proof.
+  intros new k j prog. induction prog as [|ins rest IH]; intros i st Hj; [reflexivity|].
+  cbn [exec]. destruct i as [|i].
+  - cbn [ev_here ev_next].
+    destruct (i_guard ins && negb (m_exists st)); [reflexivity|].
+    destruct (i_op ins) eqn:Eop; try reflexivity;
+      rewrite run_acts_nofire by (pose proof (acts_len2 st (i_op ins)) as Hl; rewrite Eop in Hl; lia);
+      reflexivity.
+  - cbn [ev_here ev_next].
+    destruct (i_guard ins && negb (m_exists st)); [now apply IH|].
+    destruct (i_op ins) eqn:Eop;
+      try (match goal with |- context [run_acts ?a ?b ?c ?d ?e] =>
+             destruct (run_acts a b c d e) as [st' [| |]] end; [now apply IH | reflexivity | reflexivity]).
+    + destruct (m_need_save st); [now apply IH | reflexivity].
+    + now apply IH.
+Qed.
+
+Lemma exec_nofire_i : forall w new k j prog i st, List.length prog <= i ->
+  exec w new (Some (mkEv k i j)) prog st = exec w new None prog st.
+Proof.
+  intros w new k j prog. induction prog as [|ins rest IH]; intros i st Hi; [reflexivity|].
+  simpl List.length in Hi. destruct i as [|i]; [lia|].
+  cbn [exec ev_here ev_next].
+  destruct (i_guard ins && negb (m_exists st)); [apply IH; lia|].
+  destruct (i_op ins) eqn:Eop;
+    try (match goal with |- context [run_acts ?a ?b ?c ?d ?e] =>
+           destruct (run_acts a b c d e) as [st' [| |]] end; [apply IH; lia | reflexivity | reflexivity]).
+  - destruct (m_need_save st); [apply IH; lia | reflexivity].
+  - apply IH; lia.
+Qed.
+
+Definition all_events (k : evkind) (n : nat) : list (option event) :=
+  None :: flat_map (fun i => [Some (mkEv k i 0); Some (mkEv k i 1)]) (seq 0 n).
+
+(* every number of writes and every event position behaves like one of finitely many events at w = 2 *)
+Lemma event_reduce : forall w k i j prog, 1 <= w ->
+  exists ev', In ev' (all_events k (List.length prog)) /\
+    forall new st, exec w new (Some (mkEv k i j)) prog st = exec 2 new ev' prog st.
+Proof.
+  intros w k i j prog Hw.
+  assert (Hc : exists j', clip w prog (Some (mkEv k i j)) = Some (mkEv k i j')).
+  { simpl. destruct (nth_error prog i) as [ins|]; [destruct (i_op ins)|]; eauto. }
+  destruct Hc as [j' Hc].
+  destruct (Nat.ltb_spec i (List.length prog)) as [Hi|Hi];
+    [destruct (Nat.ltb_spec j' 2) as [Hj|Hj]|].
+  - exists (Some (mkEv k i j')). split.
+    + right. apply in_flat_map. exists i. split; [apply in_seq; lia|].
+      destruct j' as [|[|]]; simpl; auto; lia.
+    + intros. rewrite (exec_collapse w new prog _ st Hw), Hc. reflexivity.
+  - exists None. split; [left; reflexivity|].
+    intros. rewrite (exec_collapse w new prog _ st Hw), Hc. now apply exec_nofire_j.
+  - exists None. split; [left; reflexivity|].
+    intros. rewrite (exec_collapse w new prog _ st Hw), Hc. now apply exec_nofire_i.
+Qed.
+
+Lemma exec_none_collapse : forall w new prog st, 1 <= w ->
+  exec w new None prog st = exec 2 new None prog st.
+Proof. intros. now rewrite (exec_collapse w new prog None st). Qed.
+
+(* losing more directory operations than were issued = losing all of them *)
+Lemma crash_lost_min : forall nlost l (fs : fsys St),
+  crash_lost nlost l fs = crash_lost (Nat.min nlost (List.length (dlog fs))) l fs.
+Proof.
+  intros. unfold crash_lost. f_equal. f_equal. lia.
+Qed.
+
+End Collapse.
